@@ -264,6 +264,41 @@ def _sim_cases(num, depth, seed, want, d):
     return [c for _, _, c in scored[:want]]
 
 
+def _enforce_cases():
+    """a routed payment over two channels (incoming on c1 in both commitments, outgoing on c2, preimage not yet
+    known), under policy.enforce_balance: the preimage arriving while a commitment that fails / removes one of
+    the two HTLCs is being signed, validated or revoked"""
+    ch2, h1 = ["c1", "c2"], ["h1"]
+
+    def sc(c, x):
+        return {"op": "SignCp", "ch": c, "c": x}
+
+    def vh(c, x):
+        return {"op": "ValidateHolder", "ch": c, "c": x}
+
+    def rv(c):
+        return {"op": "Revoke", "ch": c}
+    o1, r1 = [_o("h1", 1)], [_r("h1", 1)]
+    ful = {"op": "Fulfill", "h": "h1", "via": "c2"}       # the preimage comes back over the outgoing channel
+    ful1 = {"op": "Fulfill", "h": "h1", "via": "c1"}
+    routed = [sc("c1", r1), vh("c1", r1), rv("c1"), sc("c2", o1)]
+    routed2 = routed + [vh("c2", o1), rv("c2")]
+    L = [
+        (routed, ful, sc("c1", [])),                  # incoming failed back while the preimage arrives
+        (routed, ful, vh("c1", [])),
+        (routed + [vh("c1", [])], ful, rv("c1")),
+        (routed2, ful, sc("c2", [])),                 # outgoing removed while the preimage arrives
+        (routed2, ful, vh("c2", [])),
+        (routed2 + [vh("c2", [])], ful, rv("c2")),
+        (routed2, ful1, sc("c2", [])),                # ... reported through the other channel
+        (routed2, sc("c1", []), sc("c2", [])),        # both legs removed concurrently
+        (routed[:3], ful, sc("c2", o1)),              # forward racing the preimage
+        (routed[:3], ful1, sc("c2", o1)),
+        ([], sc("c1", r1), sc("c2", r1)),
+    ]
+    return [{"chans": ch2, "hashes": h1, "prefix": p, "a": a, "b": b, "src": "hand"} for p, a, b in L]
+
+
 def conc_component(tier):
     """-> (violations, coverage, number of concurrent runs).  Keys: pay-nonlinearizable:<opA>||<opB>,
     pay-stuck:<opA>||<opB>, C06a:concurrent:<opA>||<opB>, C06b:concurrent:<opA>||<opB>."""
@@ -272,76 +307,90 @@ def conc_component(tier):
     t0 = time.time()
     binpath = vlib.build("payments")
     d = wd("conc")
-    cases = _hand_cases() + _sim_cases(20 if quick else 120, 40, vlib.seed(), 80 if quick else 600, d)
-    for i, c in enumerate(cases):
-        c["id"] = i
-    shards = 6 if quick else 8
-    files = []
-    for s in range(shards):
-        cf = os.path.join(d, "cases-%d.ndjson" % s)
-        with open(cf, "w") as f:
-            for c in cases[s::shards]:
-                f.write(json.dumps(c) + "\n")
-        files.append((cf, os.path.join(d, "runs-%d.ndjson" % s)))
-    with ThreadPoolExecutor(max_workers=shards) as ex:
-        stats = list(ex.map(lambda p: vlib.run_bin(binpath, ["conc", "--cases", p[0], "--out", p[1], "--fee", 0, "--pct", 10],
-                                                   timeout=3000), files))
-    runs_file = os.path.join(d, "runs.ndjson")
-    cases_file = os.path.join(d, "case-steps.ndjson")
-    with open(runs_file, "w") as fr, open(cases_file, "w") as fc:
-        for _, rf in files:
-            fr.write(open(rf).read())
-            fc.write(open(rf + ".cases").read())
-    report = os.path.join(d, "report.json")
-    vlib.tlc("ConcPayments", os.path.join(SPEC, "ConcPayments.cfg"),
-             env={"CP_RUNS": runs_file, "CP_CASES": cases_file, "CP_REPORT": report, "PM_FEE": 0, "PM_PCT": 10,
-                  "PM_REVOKE_VALIDATES": _bool(SWITCHES["revokeValidates"])},
-             workers=1, timeout=1800, name=_nm("conc-payments"), heap="12g")
-    rep = json.load(open(report))
-    by_id = {c["id"]: c for c in cases}
+    plain = _hand_cases() + [dict(c) for c in _enforce_cases()] + \
+        _sim_cases(20 if quick else 120, 40, vlib.seed(), 80 if quick else 600, d)
+    # (group, enforce_balance, cases): the second group runs the racing pairs under policy.enforce_balance = true,
+    # where replies and the final state include the node's balance register (excess_amount)
+    groups = [("", 0, plain), ("-enforce", 1, _enforce_cases())]
+    viol, cov = [], {}
+    total_runs = 0
+    for tag, enforce, cases in groups:
+        for i, c in enumerate(cases):
+            c["id"] = i
+        shards = min(len(cases), 6 if quick else 8)
+        files = []
+        for s_ in range(shards):
+            cf = os.path.join(d, "cases%s-%d.ndjson" % (tag, s_))
+            with open(cf, "w") as f:
+                for c in cases[s_::shards]:
+                    f.write(json.dumps(c) + "\n")
+            files.append((cf, os.path.join(d, "runs%s-%d.ndjson" % (tag, s_))))
+        with ThreadPoolExecutor(max_workers=shards) as ex:
+            stats = list(ex.map(lambda p: vlib.run_bin(binpath, ["conc", "--cases", p[0], "--out", p[1], "--fee", 0, "--pct", 10,
+                                                                 "--enforce", enforce], timeout=3000), files))
+        runs_file = os.path.join(d, "runs%s.ndjson" % tag)
+        cases_file = os.path.join(d, "case-steps%s.ndjson" % tag)
+        with open(runs_file, "w") as fr, open(cases_file, "w") as fc:
+            for _, rf in files:
+                fr.write(open(rf).read())
+                fc.write(open(rf + ".cases").read())
+        report = os.path.join(d, "report%s.json" % tag)
+        vlib.tlc("ConcPayments", os.path.join(SPEC, "ConcPayments.cfg"),
+                 env={"CP_RUNS": runs_file, "CP_CASES": cases_file, "CP_REPORT": report, "PM_FEE": 0, "PM_PCT": 10,
+                      "PM_REVOKE_VALIDATES": _bool(SWITCHES["revokeValidates"])},
+                 workers=1, timeout=1800, name=_nm("conc-payments"), heap="12g")
+        rep = json.load(open(report))
+        by_id = {c["id"]: c for c in cases}
+        pol = " [policy enforce_balance]" if enforce else ""
 
-    def names(x):
-        return tuple(sorted([x["a"]["op"], x["b"]["op"]]))
+        def names(x):
+            return tuple(sorted([x["a"]["op"], x["b"]["op"]]))
 
-    def replay_of(x):
-        c = by_id[x["case"]]
-        return {"kind": "payments-conc", "chans": c["chans"], "hashes": c["hashes"], "prefix": c["prefix"], "a": c["a"],
-                "b": c["b"], "held": x["held"], "k": x["k"], "observed": {"ra": x["ra"], "rb": x["rb"], "post": x["post"]},
-                "sequential": {"ab": x["sab"], "ba": x["sba"]}}
+        def replay_of(x):
+            c = by_id[x["case"]]
+            return {"kind": "payments-conc", "chans": c["chans"], "hashes": c["hashes"], "prefix": c["prefix"], "a": c["a"],
+                    "b": c["b"], "held": x["held"], "k": x["k"], "enforce": enforce,
+                    "observed": {"ra": x["ra"], "rb": x["rb"], "post": x["post"], "postx": x["postx"]},
+                    "sequential": {"ab": x["sab"], "ba": x["sba"]}}
 
-    def story(x):
-        c = by_id[x["case"]]
-        return "after %s: %s || %s (request %s held before its lock acquisition %d) -> replies %s / %s" % (
-            describe([{"req": r} for r in c["prefix"]]) or "(start)", _short(c["a"]), _short(c["b"]),
-            "ab"[x["held"]], x["k"], "ok" if x["ra"]["ok"] else "refused", "ok" if x["rb"]["ok"] else "refused")
-    viol = []
-    for x in rep["nonlinearizable"]:
-        viol.append({"key": "pay-nonlinearizable:%s||%s" % names(x),
-                     "what": "concurrent requests on one node produced replies + payment ledger that neither sequential "
-                             "order of the implementation explains: " + story(x), "replay": replay_of(x)})
-    for y in rep["overpaid"]:
-        x = y["run"]
-        viol.append({"key": "%s:concurrent:%s||%s" % ((y["clause"],) + names(x)),
-                     "what": "%s fails on the real node after two requests executed CONCURRENTLY: %s" % (
-                         y["clause"], story(x)), "replay": replay_of(x)})
-    for x in rep["stuck"]:
-        viol.append({"key": "pay-stuck:%s||%s" % names(x), "what": "concurrent requests never completed: " + story(x),
-                     "replay": replay_of(x)})
-    if any(s.get("stuck") for s in stats) and not rep["stuck"]:
-        raise vlib.ToolError("payments conc: a shard reported a stuck run that is not in the records")
-    if rep["interleaved"] == 0 or rep["both_accepted"] == 0:
-        raise vlib.ToolError("vacuous concurrency leg: no run interleaved / no run accepted both requests")
-    cov = {"atomicity_payment_ledger": {
-        "cases": len(cases), "hand_picked_cases": sum(1 for c in cases if c["src"] == "hand"),
-        "cases_from_simulated_behaviours": sum(1 for c in cases if c["src"] == "sim"),
-        "concurrent_runs": rep["runs"], "runs_where_the_other_request_ran_through_while_one_was_held": rep["interleaved"],
-        "runs_with_both_requests_accepted": rep["both_accepted"], "runs_where_the_sequential_order_matters": rep["order_matters"],
-        "nonlinearizable": rep["n_nonlinearizable"], "overpaid_only_concurrently": rep["n_overpaid"],
-        "stuck": len(rep["stuck"]), "spec_divergences": rep["n_spec_divergences"],
-        "spec_divergence_samples": rep["spec_divergences"][:3], "wall_s": round(time.time() - t0, 1)}}
-    log("[payments] concurrency leg: %d cases, %d concurrent runs in %.1fs; nonlinearizable %d, overpaid %d, spec divergences %d" % (
-        len(cases), rep["runs"], time.time() - t0, rep["n_nonlinearizable"], rep["n_overpaid"], rep["n_spec_divergences"]))
-    return viol, cov, rep["runs"]
+        def story(x):
+            c = by_id[x["case"]]
+            return "after %s: %s || %s (request %s held before its lock acquisition %d) -> replies %s / %s, bookkeeping %s " \
+                   "(a;b %s, b;a %s)%s" % (
+                       describe([{"req": r} for r in c["prefix"]]) or "(start)", _short(c["a"]), _short(c["b"]),
+                       "ab"[x["held"]], x["k"], "ok" if x["ra"]["ok"] else "refused", "ok" if x["rb"]["ok"] else "refused",
+                       json.dumps(x["postx"]), json.dumps(x["sab"]["postx"]), json.dumps(x["sba"]["postx"]), pol)
+        for x in rep["nonlinearizable"]:
+            viol.append({"key": "pay-nonlinearizable:%s||%s" % names(x),
+                         "what": "concurrent requests on one node produced replies + payment ledger + balance bookkeeping that "
+                                 "neither sequential order of the implementation explains: " + story(x), "replay": replay_of(x)})
+        for y in rep["overpaid"]:
+            x = y["run"]
+            viol.append({"key": "%s:concurrent:%s||%s" % ((y["clause"],) + names(x)),
+                         "what": "%s fails on the real node after two requests executed CONCURRENTLY: %s" % (
+                             y["clause"], story(x)), "replay": replay_of(x)})
+        for x in rep["stuck"]:
+            viol.append({"key": "pay-stuck:%s||%s" % names(x), "what": "concurrent requests never completed: " + story(x),
+                         "replay": replay_of(x)})
+        if any(s_.get("stuck") for s_ in stats) and not rep["stuck"]:
+            raise vlib.ToolError("payments conc: a shard reported a stuck run that is not in the records")
+        if rep["interleaved"] == 0 or rep["both_accepted"] == 0:
+            raise vlib.ToolError("vacuous concurrency leg%s: no run interleaved / no run accepted both requests" % tag)
+        cov["atomicity_payment_ledger" + tag.replace("-", "_")] = {
+            "cases": len(cases), "hand_picked_cases": sum(1 for c in cases if c["src"] == "hand"),
+            "cases_from_simulated_behaviours": sum(1 for c in cases if c["src"] == "sim"),
+            "concurrent_runs": rep["runs"], "runs_where_the_other_request_ran_through_while_one_was_held": rep["interleaved"],
+            "runs_with_both_requests_accepted": rep["both_accepted"],
+            "runs_where_the_sequential_order_matters": rep["order_matters"],
+            "nonlinearizable": rep["n_nonlinearizable"], "overpaid_only_concurrently": rep["n_overpaid"],
+            "stuck": len(rep["stuck"]), "spec_divergences": rep["n_spec_divergences"],
+            "spec_divergence_samples": rep["spec_divergences"][:3]}
+        total_runs += rep["runs"]
+        log("[payments] concurrency leg%s: %d cases, %d concurrent runs; nonlinearizable %d, overpaid %d, spec divergences %d" % (
+            tag, len(cases), rep["runs"], rep["n_nonlinearizable"], rep["n_overpaid"], rep["n_spec_divergences"]))
+    cov["atomicity_payment_ledger"]["wall_s"] = round(time.time() - t0, 1)
+    log("[payments] concurrency legs: %d concurrent runs in %.1fs" % (total_runs, time.time() - t0))
+    return viol, cov, total_runs
 
 
 def conc_replay(pid, rp):
@@ -353,7 +402,8 @@ def conc_replay(pid, rp):
         f.write(json.dumps({"id": 0, "chans": rp["chans"], "hashes": rp["hashes"], "prefix": rp["prefix"], "a": rp["a"],
                             "b": rp["b"]}) + "\n")
     rf = os.path.join(d, "runs.ndjson")
-    vlib.run_bin(binpath, ["conc", "--cases", cf, "--out", rf, "--fee", 0, "--pct", 10], timeout=600)
+    vlib.run_bin(binpath, ["conc", "--cases", cf, "--out", rf, "--fee", 0, "--pct", 10, "--enforce", rp.get("enforce", 0)],
+                 timeout=600)
     report = os.path.join(d, "report.json")
     vlib.tlc("ConcPayments", os.path.join(SPEC, "ConcPayments.cfg"),
              env={"CP_RUNS": rf, "CP_CASES": rf + ".cases", "CP_REPORT": report, "PM_FEE": 0, "PM_PCT": 10,
